@@ -1,7 +1,14 @@
 (* Executable entry points of the C05 checker in the integer-list protocol.
-   input:  nentries (pc nargs)*  ninstr (tag a b)*        output: [1] accepted | [0; pc] rejected at pc *)
+   stream :=  nentries (pc nargs)*  ninstr (tag a b)*
+   c05        stream                       -> [1] accepted | [0; k; pc; p; r; cap] rejected: analysis k at pc
+                                              (k = 0: entry points; k > 0: activation of the recursive loop whose PushLoop is
+                                               at p, called from the site before r, capturing iff cap = 1)
+   c05-main   stream                       -> [1] | [0; pc]       entry-point analysis only (calls summarised)
+   c05-ann    stream                       -> per pc: reachable?, #frames, captures, auto-escapes, operand slots
+   c05-stats  stream                       -> [#recursive loops; #call sites; #region analyses]
+   c05-trace  stream  nobs (pc stk frames caps aes)*   -> [1; steps] | [0; index; reason; pc; observed pc] (C05/Trace.v) *)
 From Coq Require Import String.
-From MJ Require Import Common.Base C05.Model.
+From MJ Require Import Common.Base C05.Model C05.Trace.
 
 Definition dec_instr (tag a b : Z) : instr :=
   let n := Z.to_nat a in
@@ -14,8 +21,8 @@ Definition dec_instr (tag a b : Z) : instr :=
   | 5 => IBin
   | 6 => IPushWith
   | 7 => IPopFrame
-  | 8 => IPushLoop
-  | 9 => IPopLoopFrame
+  | 8 => IPushLoop (negb (Z.eqb a 0))
+  | 9 => IPopLoopFrame n
   | 10 => IIterate n
   | 11 => IDidNotIterate
   | 12 => IJump n
@@ -25,6 +32,8 @@ Definition dec_instr (tag a b : Z) : instr :=
   | 16 => IPopAE
   | 17 => IBeginCapture
   | 18 => IEndCapture
+  | 20 => ICall (negb (Z.eqb a 0))
+  | 21 => IRecurse
   | _ => IReturn
   end.
 
@@ -34,45 +43,78 @@ Fixpoint dec_entries (n : nat) (l : list Z) : list (nat * shape) * list Z :=
   | _, _ => ([], l)
   end.
 
-Fixpoint dec_instrs (fuel : nat) (l : list Z) : list instr :=
+Fixpoint dec_instrs (fuel : nat) (l : list Z) : list instr * list Z :=
   match fuel, l with
-  | S f, tag :: a :: b :: r => dec_instr tag a b :: dec_instrs f r
+  | S f, tag :: a :: b :: r => let '(is, rest) := dec_instrs f r in (dec_instr tag a b :: is, rest)
+  | _, _ => ([], l)
+  end.
+
+(* -> entries, instructions, rest of the input *)
+Definition dec_stream (inp : list Z) : option (list (nat * shape) * list instr * list Z) :=
+  match inp with
+  | ne :: r =>
+      let '(entries, r2) := dec_entries (Z.to_nat ne) r in
+      match r2 with
+      | ni :: r3 => let '(C, rest) := dec_instrs (Z.to_nat ni) r3 in Some (entries, C, rest)
+      | [] => None
+      end
+  | [] => None
+  end.
+
+Definition Zb (b : bool) : Z := if b then 1 else 0.
+
+Definition run (inp : list Z) : list Z :=
+  match dec_stream inp with
+  | Some (entries, C, _) =>
+      match verdict_rec C entries with
+      | None => [1]
+      | Some (k, pc) =>
+          match k with
+          | O => [0; 0; Z.of_nat pc; 0; 0; 0]
+          | S j => match nth_error (regions C) j with
+                   | Some (p, (r, cap)) => [0; Z.of_nat k; Z.of_nat pc; Z.of_nat p; Z.of_nat r; Zb cap]
+                   | None => [0; Z.of_nat k; Z.of_nat pc; 0; 0; 0]
+                   end
+          end
+      end
+  | None => [9]
+  end.
+
+Definition run_main (inp : list Z) : list Z :=
+  match dec_stream inp with
+  | Some (entries, C, _) => match verdict C entries with None => [1] | Some pc => [0; Z.of_nat pc] end
+  | None => [9]
+  end.
+
+(* the inferred annotation of the entry-point analysis *)
+Definition ann_of (inp : list Z) : list Z :=
+  match dec_stream inp with
+  | Some (entries, C, _) =>
+      flat_map (fun o => match o with
+                         | None => [0; 0; 0; 0; 0]
+                         | Some s => [1; Z.of_nat (length (frames s)); Z.of_nat (caps s); Z.of_nat (aes s); Z.of_nat (length (stk s))]
+                         end) (annotate C entries)
+  | None => [9]
+  end.
+
+Definition stats (inp : list Z) : list Z :=
+  match dec_stream inp with
+  | Some (_, C, _) => [Z.of_nat (length (rec_targets C)); Z.of_nat (length (call_sites C)); Z.of_nat (length (regions C))]
+  | None => [9]
+  end.
+
+Fixpoint dec_obs (n : nat) (l : list Z) : list obs :=
+  match n, l with
+  | S n, pc :: k :: f :: c :: a :: r => mkObs (Z.to_nat pc) (Z.to_nat k) (Z.to_nat f) (Z.to_nat c) (Z.to_nat a) :: dec_obs n r
   | _, _ => []
   end.
 
-Definition run (inp : list Z) : list Z :=
-  match inp with
-  | ne :: r =>
-      let '(entries, r2) := dec_entries (Z.to_nat ne) r in
-      match r2 with
-      | ni :: r3 =>
-          let C := dec_instrs (Z.to_nat ni) r3 in
-          match verdict C entries with
-          | None => [1]
-          | Some pc => [0; Z.of_nat pc]
-          end
-      | [] => [9]
-      end
-  | [] => [9]
-  end.
-
-(* the inferred annotation, for comparison with dynamic observations:
-   per pc: reachable?, #frames, captures, auto-escapes, operand slots *)
-Definition ann_of (inp : list Z) : list Z :=
-  match inp with
-  | ne :: r =>
-      let '(entries, r2) := dec_entries (Z.to_nat ne) r in
-      match r2 with
-      | ni :: r3 =>
-          let C := dec_instrs (Z.to_nat ni) r3 in
-          flat_map (fun o => match o with
-                             | None => [0; 0; 0; 0; 0]
-                             | Some s => [1; Z.of_nat (length (frames s)); Z.of_nat (caps s); Z.of_nat (aes s); Z.of_nat (length (stk s))]
-                             end) (annotate C entries)
-      | [] => [9]
-      end
-  | [] => [9]
+Definition trace (inp : list Z) : list Z :=
+  match dec_stream inp with
+  | Some (entries, C, n :: rest) => replay_act C entries (dec_obs (Z.to_nat n) rest)
+  | _ => [9]
   end.
 
 Open Scope string_scope.
-Definition runners : list (string * (list Z -> list Z)) := [ ("c05", run); ("c05-ann", ann_of) ].
+Definition runners : list (string * (list Z -> list Z)) :=
+  [ ("c05", run); ("c05-main", run_main); ("c05-ann", ann_of); ("c05-stats", stats); ("c05-trace", trace) ].
